@@ -23,6 +23,7 @@ func init() {
 			c03R4(c, "C03.R4")
 			c03R5(c, "C03.R5")
 			c03R6(c, "C03.R6")
+			c03R8(c, "C03.R8")
 			ruleRollbackUndoesFrees(c, "C03.R7") // "or never, if it is rolled back": an aborted writer leaves no trace in the free list
 		},
 	})
@@ -258,7 +259,7 @@ func c03R3(c *Ctx, id string) {
 var lockRank = map[string]int{"rwlock": 0, "metalock": 1, "mmaplock": 2, "statlock": 3}
 
 func c03R4(c *Ctx, id string) {
-	c.rule(id, "lock-order", 9, func() {
+	c.rule(id, "lock-order", 8, func() {
 		wr := txField(c, "writable")
 		type edgeInfo struct {
 			site, fn string
@@ -467,5 +468,55 @@ func c03R6(c *Ctx, id string) {
 			}
 		})
 		c.check(id+":(*Tx).Commit:handlers-after-close", commit, cl.Pos(), "commit handlers run only after tx.close() released the locks", n > 0 && badH == "", "handler invoked before close at "+badH)
+	})
+}
+
+var freelistMutators = map[string]bool{
+	"freelist.Interface.Free": true, "freelist.Interface.Rollback": true, "freelist.Interface.Reload": true, "freelist.Interface.NoSyncReload": true,
+	"freelist.Interface.Allocate": true, "freelist.Interface.ReleasePendingPages": true, "freelist.Interface.Init": true, "freelist.ReadWriter.Read": true,
+}
+
+// c03R8: the in-memory free list belongs to the writer: every mutation of it happens while rwlock is held
+// (the reader registry inside it is the exception: Add/RemoveReadonlyTXID run under metalock, C02.R1/R3).
+func c03R8(c *Ctx, id string) {
+	c.rule(id, "freelist-mutated-under-writer-lock", 8, func() {
+		la := newLockAnalysis(c, map[*types.Var]bool{}).forTx(true)
+		isTxSide := func(fn *ssa.Function) bool {
+			if fn.Signature.Recv() == nil {
+				return false
+			}
+			rt := fn.Signature.Recv().Type().String()
+			return strings.HasSuffix(rt, "bbolt.Tx") || strings.HasSuffix(rt, "bbolt.Bucket") || strings.HasSuffix(rt, "bbolt.Cursor") || strings.HasSuffix(rt, "bbolt.node")
+		}
+		amb := func(fn *ssa.Function) lset {
+			if isTxSide(fn) {
+				return lset{"rwlock:W": true} // an open write transaction holds the writer lock between its API calls
+			}
+			return lset{}
+		}
+		ctx := la.contextM(amb, amb)
+		perFn := map[string]int{}
+		for _, fn := range c.P.FnsIn(rootPkg) {
+			name := shortFn(fn)
+			eachInstr(fn, func(in ssa.Instruction) {
+				ci, ok := in.(ssa.CallInstruction)
+				if !ok || !freelistMutators[calleeOf(ci).Name()] {
+					return
+				}
+				if la.before(in) == nil {
+					return // unreachable for a write transaction
+				}
+				perFn[name]++
+				held := la.heldMust(ctx, in)
+				okH := held["rwlock:W"]
+				exc := ""
+				if name == "bbolt.(*DB).loadFreelist$1" {
+					okH, exc = true, " [exception: first load inside sync.Once — during Open before the DB is published, or from Tx.Check on a read-only DB, which is documented as unsafe with concurrent writers]"
+				}
+				cn := calleeOf(ci).Name()
+				c.check(fmt.Sprintf("%s:%s:%s#%d", id, name, cn[strings.LastIndex(cn, ".")+1:], perFn[name]), fn, in.Pos(), "the free list is mutated ("+cn+") only while the writer lock is held"+exc, okH,
+					fmt.Sprintf("locks definitely held here: %v — another writer can already be allocating from / freeing into the same free list", held))
+			})
+		}
 	})
 }
